@@ -311,6 +311,8 @@ func c04Run(s c04Scn) (c04Obs, []Mon) {
 		}
 		rev.Spec.Pipeline = append(rev.Spec.Pipeline, ps)
 	}
+	reqCanon := map[int][]string{}
+	lastFatal := map[int]bool{}
 	inner := composite.FunctionRunnerFn(func(_ context.Context, name string, req *fnv1.RunFunctionRequest) (*fnv1.RunFunctionResponse, error) {
 		i := stepIdx[name]
 		r := c04Req{Step: i, Fn: name, Observed: c04Resources(req.GetObserved().GetResources(), true), Desired: c04Resources(req.GetDesired().GetResources(), false), Ctx: [][2]string{}, Extra: []c04ExtraSeen{}, Creds: []c04CredSeen{}}
@@ -346,7 +348,36 @@ func c04Run(s c04Scn) (c04Obs, []Mon) {
 		}
 		sort.Slice(r.Creds, func(a, b int) bool { return r.Creds[a].Name < r.Creds[b].Name })
 		obs.Reqs = append(obs.Reqs, r)
-		return c04Eval(s.Steps[i], req)
+		if why := c04BetaRoundTrip(req); why != "" {
+			mons = append(mons, Mon{Sig: "C04:beta-reencoding-lossy", Why: why})
+		}
+		rsp, err := c04Eval(s.Steps[i], req)
+		if err == nil {
+			// canonical rendering of the requirements this call returned (for the stabilisation monitor)
+			keys := []string{}
+			for k := range rsp.GetRequirements().GetExtraResources() {
+				keys = append(keys, k)
+			}
+			sort.Strings(keys)
+			canon := ""
+			for _, k := range keys {
+				sel := rsp.GetRequirements().GetExtraResources()[k]
+				lb, _ := json.Marshal(sel.GetMatchLabels().GetLabels())
+				canon += fmt.Sprintf("%s=%s/%s/%s/%s;", k, sel.GetApiVersion(), sel.GetKind(), sel.GetMatchName(), lb)
+			}
+			fatal := false
+			for _, rs := range rsp.GetResults() {
+				if rs.GetSeverity() == fnv1.Severity_SEVERITY_FATAL {
+					fatal = true
+				}
+			}
+			reqCanon[i] = append(reqCanon[i], canon)
+			lastFatal[i] = fatal
+			if why := c04BetaRspRoundTrip(rsp); why != "" {
+				mons = append(mons, Mon{Sig: "C04:beta-reencoding-lossy", Why: why})
+			}
+		}
+		return rsp, err
 	})
 	runner := composite.NewFetchingFunctionRunner(inner, composite.NewExistingExtraResourcesFetcher(st))
 	fc := composite.NewFunctionComposer(st, st, runner)
@@ -381,6 +412,19 @@ func c04Run(s c04Scn) (c04Obs, []Mon) {
 		gk := schema.ParseGroupKind(c.GK)
 		if gk.Kind == "KA" || gk.Kind == "KB" || (gk.Kind == xwXRGVK.Kind && c.Sub == "") {
 			obs.Writes++
+		}
+	}
+	// C04/C03 monitor: a step's answer is accepted only if its requirements equal those of the previous round
+	if err == nil {
+		for i, cs := range reqCanon {
+			n := len(cs)
+			prev := ""
+			if n >= 2 {
+				prev = cs[n-2]
+			}
+			if n >= 1 && cs[n-1] != prev && !lastFatal[i] {
+				mons = append(mons, Mon{Sig: "C04:unstable-requirements-accepted", Why: fmt.Sprintf("step %d: composition went on although the requirements of the last call (%q) differ from the previous round's (%q)", i, cs[n-1], prev)})
+			}
 		}
 	}
 	// C03 monitor: a failing pipeline writes nothing
@@ -451,14 +495,20 @@ func c04GenStep(r *Rng, i int) c04Step {
 	// requirement chains of a chosen length driven by the context (rounds that keep changing)
 	if r.Chance(1, 3) {
 		n := r.Range(1, 8)
+		byLabel := r.Bool()
 		for j := 0; j < n; j++ {
 			cond := c04Cond{T: "ctxEq", K: "n", V: fmt.Sprintf("%d", j)}
 			if j == 0 {
 				cond = c04Cond{T: "ctxLacks", K: "n"}
 			}
+			sel := &c04Sel{Kind: "EX", Name: []string{"x1", "x2", "nope"}[j%3]}
+			if byLabel {
+				// requirements that differ from round to round ONLY in a label value
+				sel = &c04Sel{Kind: "EX", Labels: map[string]string{"tier": []string{"gold", "none", "silver"}[j%3]}}
+			}
 			st.Rules = append(st.Rules, c04Rule{If: cond, Do: []c04Act{
 				{T: "ctx", K: "n", V: fmt.Sprintf("%d", j+1)},
-				{T: "require", K: "chain", Sel: &c04Sel{Kind: "EX", Name: []string{"x1", "x2", "nope"}[j%3]}},
+				{T: "require", K: "chain", Sel: sel},
 			}})
 		}
 	}
@@ -500,6 +550,12 @@ func c04Gen(r *Rng) c04Scn {
 func init() {
 	Register("C04", func(c *Ctx) {
 		for _, raw := range c.Corpus {
+			var cs c04ConnScn
+			if err := json.Unmarshal(raw, &cs); err == nil && cs.Conn {
+				cobs, cmons := c04ConnRun(cs)
+				c.Emit(cs, cobs, cmons, "corpus")
+				continue
+			}
 			var s c04Scn
 			if err := json.Unmarshal(raw, &s); err == nil && len(s.Steps) > 0 {
 				obs, mons := c04Run(s)
@@ -507,6 +563,24 @@ func init() {
 			}
 		}
 		for i := 0; i < c.N; i++ {
+			if i%5 == 4 {
+				cs := c04ConnGen(c.Rng)
+				cobs, cmons := c04ConnRun(cs)
+				runs, errs, gcs := 0, 0, 0
+				for j, op := range cs.Ops {
+					if op.Op == "run" {
+						runs++
+						if cobs.Steps[j].Err {
+							errs++
+						}
+					}
+					if op.Op == "gc" {
+						gcs += cobs.Steps[j].Closed
+					}
+				}
+				c.Emit(cs, cobs, cmons, fmt.Sprintf("conn/runs=%d/errs=%d/closed=%d", runs, errs, gcs))
+				continue
+			}
 			s := c04Gen(c.Rng)
 			obs, mons := c04Run(s)
 			maxRounds := 0
